@@ -80,20 +80,26 @@ def sub_lroo_accessor(case):
             "lroo accessor value")
 
 
-def _croo_da(rows, stored_order, dims):
+def _croo_da(rows, stored_order, dims, axis="fancy"):
     """rows: chronological series per pixel; stored_order: permutation p, stored[k] = chrono[p[k]]."""
     arr = np.array(rows, dtype="int64")
     nt = arr.shape[1]
     t = pd.date_range("2001-03-01", periods=nt, freq="10D")
     p = np.array(stored_order)
     cube = arr[:, p].reshape(arr.shape[0], 1, nt)
-    da = xr.DataArray(cube, dims=("y", "x", "time"), coords={"time": t[p]})
+    tp = t[p]
+    if axis != "fancy" and nt > 1 and list(stored_order) == list(range(nt - 1, -1, -1)):
+        # a descending axis that is still "regular": a DatetimeIndex that carries a negative frequency, as date_range(freq="-10D")
+        # or a reversing slice of a regular axis produce
+        tp = pd.date_range(t[-1], periods=nt, freq="-10D") if axis == "negative_freq" else t[::-1]
+        assert list(tp) == list(t[p]) and tp.freq is not None
+    da = xr.DataArray(cube, dims=("y", "x", "time"), coords={"time": tp})
     return da.transpose(*dims)
 
 
 def sub_croo(case):
     rows = case["pixels"]
-    da = _croo_da(rows, case["order"], case.get("dims", ["time", "y", "x"]))
+    da = _croo_da(rows, case["order"], case.get("dims", ["time", "y", "x"]), case.get("axis", "fancy"))
     res = call("hdc.algo.croo", lambda: da.hdc.algo.croo())
     req("time" not in res.dims, "croo keeps the time dim: %s" % (res.dims,), "croo dims")
     res = res.transpose("y", "x").values.reshape(len(rows))
@@ -139,7 +145,50 @@ def sub_history(case):
                     "%s stale after in-place edit" % kind)
 
 
-SUBS = {"lroo_kernel": sub_lroo_kernel, "lroo_accessor": sub_lroo_accessor, "croo": sub_croo, "history": sub_history}
+def _bits(ny, nx, nt, salt):
+    i, j, t = np.meshgrid(np.arange(ny), np.arange(nx), np.arange(nt), indexing="ij")
+    return (((i * 7 + j * 13 + t * 5 + salt * 11 + (i * j) % (salt + 2)) % 3) != 0).astype("uint8")
+
+
+def _lroo_np(a):
+    """Longest run of ones along the last axis, vectorised (model for big rasters)."""
+    best = np.zeros(a.shape[:-1], dtype=np.int64)
+    cur = np.zeros(a.shape[:-1], dtype=np.int64)
+    for t in range(a.shape[-1]):
+        cur = np.where(a[..., t] == 1, cur + 1, 0)
+        best = np.maximum(best, cur)
+    return np.where(best >= 2, best, 0)  # a single one is not a run (as in ref_lroo)
+
+
+def sub_aliasing(case):
+    """Results stay what they were: several same-shaped rasters (as separate cubes, as the variables of one Dataset, and lazily
+    in equal blocks) are processed one after the other and every result is compared with the model only at the end."""
+    ny, nx, nt = case["shape"]
+    t = pd.date_range("2000-01-01", periods=nt, freq="D")
+    cubes = [_bits(ny, nx, nt, s) for s in case["salts"]]
+    das = [xr.DataArray(c, dims=("y", "x", "time"), coords={"time": t}) for c in cubes]
+    held = [call("hdc.algo.lroo (raster %d of %d, %dx%d pixels)" % (k, len(das), ny, nx), lambda d=d: d.hdc.algo.lroo()) for k, d in enumerate(das)]
+    heldc = [call("hdc.algo.croo", lambda d=d: d.hdc.algo.croo()) for d in das]
+    ds = xr.Dataset({"v%d" % k: d for k, d in enumerate(das)})
+    dsr = call("Dataset.hdc.algo.lroo", lambda: ds.hdc.algo.lroo())
+    outs = [("cube %d" % k, h.values) for k, h in enumerate(held)] + [("Dataset variable v%d" % k, dsr["v%d" % k].values) for k in range(len(das))]
+    if case.get("lazy"):
+        lz = das[0].chunk({"y": ny // 2, "x": nx, "time": -1})
+        outs.append(("cube 0 in two equal dask blocks", call("lazy lroo", lambda: lz.hdc.algo.lroo().compute(scheduler="synchronous")).values))
+    for (what, got), c in zip(outs, cubes + cubes + cubes[:1]):
+        want = _lroo_np(c)
+        bad = np.argwhere(np.asarray(got).astype(np.int64) != want)
+        req(bad.size == 0, "lroo of %s (%dx%d pixels, %d steps) is wrong at %d pixels once the other same-shaped rasters have been processed "
+            "(first at %s: %s, model %s)" % (what, ny, nx, nt, len(bad), bad[:1].tolist(), np.asarray(got)[tuple(bad[0])] if bad.size else None,
+                                              want[tuple(bad[0])] if bad.size else None), "lroo result aliased")
+    for k, (h, c) in enumerate(zip(heldc, cubes)):
+        rev = c[..., ::-1]
+        want = np.where(rev.all(axis=-1), nt, np.argmin(rev, axis=-1))
+        req(np.array_equal(h.values.astype(np.int64), want), "croo of cube %d (%dx%d pixels) is wrong once the other rasters have been processed" % (k, ny, nx),
+            "croo result aliased")
+
+
+SUBS = {"aliasing": sub_aliasing, "lroo_kernel": sub_lroo_kernel, "lroo_accessor": sub_lroo_accessor, "croo": sub_croo, "history": sub_history}
 
 
 # ---- search ---------------------------------------------------------------------------------
@@ -235,15 +284,21 @@ def run(ctx):
         rows = [list(r) for r in itertools.product((0, 1), repeat=n)]
         cnt = 0
         for perm in itertools.permutations(range(n)):
-            case = {"pixels": rows, "order": list(perm), "dims": ["time", "y", "x"]}
-            try:
-                sub_croo(case)
-            except Violation:
-                # find the single failing pixel for a small replay
-                for r in rows:
-                    c1 = {"pixels": [r], "order": list(perm), "dims": ["time", "y", "x"]}
-                    if not ctx.run_case("croo", c1):
-                        break
+            axes = ["fancy"] + (["negative_freq", "reversing_slice"] if n > 1 and list(perm) == list(range(n - 1, -1, -1)) else [])
+            failed = False
+            for axis in axes:
+                case = {"pixels": rows, "order": list(perm), "dims": ["time", "y", "x"], "axis": axis}
+                try:
+                    sub_croo(case)
+                except Violation:
+                    # find the single failing pixel for a small replay
+                    for r in rows:
+                        c1 = {"pixels": [r], "order": list(perm), "dims": ["time", "y", "x"], "axis": axis}
+                        if not ctx.run_case("croo", c1):
+                            break
+                    failed = True
+                    break
+            if failed:
                 break
             cnt += 1
             ctx.rec.case("croo", {"pixels": "all %d binary series of length %d" % (len(rows), n), "order": list(perm)},
@@ -257,18 +312,28 @@ def run(ctx):
     # 5. croo generated: longer series, random permutations, dims orders
     def croo_strategy():
         return st.integers(1, 60).flatmap(lambda n: st.builds(
-            lambda px, order, dims: {"pixels": px, "order": list(order), "dims": list(dims)},
+            lambda px, order, dims, axis: {"pixels": px, "order": list(order), "dims": list(dims), "axis": axis},
             st.lists(st.lists(st.sampled_from([0, 1, 1, 1]), min_size=n, max_size=n), min_size=1, max_size=3),
-            st.permutations(list(range(n))),
-            st.permutations(["time", "y", "x"])))
+            st.one_of(st.permutations(list(range(n))), st.just(list(range(n - 1, -1, -1))), st.just(list(range(n)))),
+            st.permutations(["time", "y", "x"]), st.sampled_from(["fancy", "negative_freq", "reversing_slice"])))
 
     def f_croo(case):
         o = case["order"]
         ctx.rec.case("croo", case, nontrivial=(o != sorted(o)) or any(p[-1] == 1 for p in case["pixels"]),
-                     cls="shuffled" if o != sorted(o) else "sorted")
+                     cls=["shuffled" if o != sorted(o) else "sorted"] + (["regular_descending_axis:" + case["axis"]] if len(o) > 1 and o == sorted(o, reverse=True) and case["axis"] != "fancy" else []))
         sub_croo(case)
 
     ctx.given("croo", croo_strategy(), ctx.n(150, 2500), fn=f_croo)
+
+    # 5b. big same-shaped rasters processed one after the other; results compared at the end
+    def f_al(case):
+        ctx.rec.case("aliasing", case, nontrivial=True, cls="pixels>=32768" if case["shape"][0] * case["shape"][1] >= 32768 else "pixels<32768")
+        sub_aliasing(case)
+
+    al = st.builds(lambda sh, salts, lazy: {"shape": list(sh), "salts": salts, "lazy": lazy},
+                   st.sampled_from([(192, 192, 4), (256, 130, 3), (40, 30, 6), (182, 181, 2), (362, 181, 3)]),
+                   st.lists(st.integers(0, 40), min_size=2, max_size=3, unique=True), st.booleans())
+    ctx.given("aliasing", al, ctx.n(6, 40), fn=f_al, shrink=False)
 
     # 6. histories on one array object
     def hist():
